@@ -135,6 +135,9 @@ class SymBuilder:
         """an input array: element function is an uninterpreted function of the index"""
         shape = tuple(I.iterate(shape))
         rank = len(shape)
+        for d in shape:
+            if isinstance(d, Sym):
+                self.ctx.fact(zint(d) >= 0)      # type invariant of an array shape
         sort = {'float': z3.RealSort(), 'int': z3.IntSort(), 'bool': z3.BoolSort()}[dtype]
         f = z3.Function(name, *([z3.IntSort()] * rank), sort) if rank else None
         kind = {'float': 'real', 'int': 'int', 'bool': 'bool'}[dtype]
@@ -163,6 +166,21 @@ class SymBuilder:
         cm = I.import_module('astropy.coordinates')
         um = I.import_module('astropy.units')
         return I.call(I.getattr(cm.ns['Angle'], '_from_si'), [self._leaf(name, 'real'), um.ns[unit]], {})
+
+    def a_construct(self, I, clsref, label, *args, **kw):
+        """an instance built by running the real constructor symbolically (faithful private state); then marked pre-existing"""
+        cls = clsref if isinstance(clsref, VClass) else I.get(clsref)
+        obj = I.call(cls, list(args), kw)
+        mark_old(obj, label)
+        self.objects[label] = obj
+        return obj
+
+    def a_assume(self, I, cond):
+        if cond is True:
+            return
+        if cond is False:
+            raise Infeasible()
+        self.ctx.assume(zbool(cond))
 
     def a_ref(self, I, dotted):
         return I.get(dotted)
@@ -277,7 +295,7 @@ class Engine:
         forall = dict(I.dict_items(forall)) if forall is not None else {}
         modifies = tuple(I.iterate(self.contract_attr(cls, 'modifies', ())))
         call = self.contract_attr(cls, 'call')
-        lemma = self.contract_attr(cls, 'lemma', False)
+        hints = self.contract_attr(cls, 'hints')
         max_paths = self.contract_attr(cls, 'max_paths', 400)
         tgt = None
         if target:
@@ -314,6 +332,11 @@ class Engine:
                         res = self.invoke(tgt, args)
                     else:
                         res = None
+                    if hints is not None:
+                        # proof hints: lemmas (each its own obligation) that become facts for every obligation of this path
+                        ctx.base_pc_len = len(ctx.pc)
+                        ctx.lemmas = []
+                        I.call(hints, [], self.select_args(hints, args, {'result': res}))
                     return ('return', res)
                 except VRaise as vr:
                     return ('raise', vr.exc)
@@ -384,6 +407,8 @@ class Engine:
         base_pc = list(ctx.pc)
         base_facts = list(ctx.facts)
         outs = []
+        if not hasattr(self, 'pending_lemmas'):
+            self.pending_lemmas = []
 
         def run(c2):
             c2.pc = list(base_pc)
@@ -391,6 +416,8 @@ class Engine:
             c2.n_fresh = ctx.n_fresh + 1000
             c2.trig_cache = ctx.trig_cache
             c2.ghost = ctx.ghost
+            c2.base_pc_len = len(base_pc)
+            c2.lemmas = []
             I.ctx = c2
             I.depth = 0
             v = I.call(fn, [], kwargs)
@@ -413,6 +440,8 @@ class Engine:
                 raise Unsupported('in clause: ' + out[1])
             extra = c2.pc[len(base_pc):]
             facts.extend(c2.facts[len(base_facts):])
+            for (ln, lc, lpc, lfacts) in c2.lemmas:
+                self.pending_lemmas.append((ln, lc, list(N.GLOBAL_FACTS) + lfacts + lpc))
             goals.append(z3.Implies(z3.And(*extra), out[1]) if extra else out[1])
         I.ctx = ctx
         return (z3.And(*goals) if len(goals) != 1 else goals[0]), facts
@@ -481,12 +510,18 @@ class Engine:
             for pname, fn in post.items():
                 try:
                     kw = self.select_args(fn, args, dict(sk, result=result, events=EventsView(ctx)))
+                    self.pending_lemmas = []
                     g, fx = self.eval_clause(ctx, fn, kw)
                     add(f'post.{pname}', g, list(fx) + univ)
+                    for (ln, lc, lh) in self.pending_lemmas:
+                        add(f'post.{pname}.lemma.{ln}', lc, univ, kind='lemma', hy=lh)
+                    self.pending_lemmas = []
                 except Unsupported as e:
                     obls.append(self.undecided(prop, cname, case, f'post.{pname}', n, str(e)))
                 except VRaise as vr:
                     obls.append(self.undecided(prop, cname, case, f'post.{pname}', n, 'clause raised ' + exc_text(I, vr.exc), kind='error'))
+        for (ln, lc, lpc, lfacts) in getattr(ctx, 'lemmas', []):
+            add(f'hint.{ln}', lc, kind='lemma', hy=list(N.GLOBAL_FACTS) + lfacts + lpc)
         # frame: writes to pre-existing objects not listed in `modifies`
         seen = set()
         for ev in ctx.events[ctx.events_before:]:
@@ -504,7 +539,8 @@ class Engine:
             add('frame', z3.BoolVal(True), kind='frame')
         # side obligations raised by external models (numpy bounds ...)
         for i, (sname, cond, pcs) in enumerate(ctx.side):
-            add(f'side.{sname}#{i}', cond, kind='side', hy=list(N.GLOBAL_FACTS) + list(ctx.facts) + list(pcs))
+            soft = sname.startswith('soft:')
+            add(f'side.{sname[5:] if soft else sname}#{i}', cond, kind='soft' if soft else 'side', hy=list(N.GLOBAL_FACTS) + list(ctx.facts) + list(pcs))
         return obls
 
     def case_kwargs(self, entry, case):
@@ -695,6 +731,9 @@ def discharge(obls, timeout_ms=20000, seed=0, procs=None, cross_check=False):
                 elif status == 'sat':
                     o.status = 'violated'
                     o.model = model
+                    if o.kind == 'soft':
+                        o.status = 'undecided'
+                        o.reason = 'outside the modelled range: ' + o.name
                 elif status == 'error':
                     o.status = 'error'
                     o.reason = reason
